@@ -29,6 +29,9 @@ func main() {
 	}
 	defer w.Flush()
 	emit := func(s *h.Sx) {
+		if s == nil {
+			return // the generator gave up on a hanging implementation
+		}
 		w.WriteString(s.String())
 		w.WriteByte('\n')
 	}
@@ -45,6 +48,8 @@ func main() {
 		h.GenConvMix(rng, n, emit)
 	case "reply":
 		h.GenReply(rng, thorough, emit)
+	case "life":
+		h.GenLife(rng, thorough, emit)
 	case "lmtp":
 		h.GenLmtp(rng, thorough, emit)
 	case "c12":
